@@ -7,6 +7,7 @@ mod depgraph;
 mod emit;
 mod env;
 mod inventory;
+mod layers;
 mod parse;
 mod pkg;
 mod streams;
@@ -16,6 +17,10 @@ fn main() {
     match mode.as_str() {
         "env" => vpharness::serve(env::handle),
         "parse" => vpharness::serve(parse::handle),
+        "layers" => {
+            let mut st = layers::State::new();
+            vpharness::serve(|req| layers::handle(&mut st, req));
+        }
         "emit" => vpharness::serve(emit::handle),
         "execd" => emit::execd(&std::env::args().skip(2).collect::<Vec<_>>()),
         "pkg" => vpharness::serve(pkg::handle),
